@@ -32,7 +32,7 @@ class ParallelModel(ConfigurableModel):
 
         # Initialize step_configs list
         if steps:
-            self.step_configs = steps  # Use new attribute name
+            self.step_configs = list(steps)  # own copy: add_step/remove_step must not edit the caller's list
         else:
             self.step_configs = []  # Use new attribute name
 
